@@ -1,6 +1,7 @@
 package main
 
 import (
+	"math/big"
 	"fmt"
 	"strings"
 	"sync"
@@ -168,6 +169,7 @@ func init() {
 		})
 		samples := []interface{}{}
 		ne := e2eSizeData(run, t, []int64{4, 5, 9}, &samples)
+		nd := declaredSizes(run)
 		// session level: SIZE= declarations and over-limit chunks are edges of the session graph
 		smc := modelCheck("MC_Session", "MC_Session.cfg", 16)
 		gs := dumpEdges("MC_Session", "Dump_Session.cfg")
@@ -190,10 +192,67 @@ func init() {
 		run.Finish("model_checking", evid.Coverage{
 			"states": mc.Distinct + smc.Distinct, "transitions": mc.Generated + smc.Generated,
 			"traces_validated_against_impl": int(st.streams) + ne + ts.Convs,
-			"reader_runs":                   st.runs, "e2e_size_conversations": ne, "session_edges_replayed": ts.Covered,
+			"reader_runs":                   st.runs, "e2e_size_conversations": ne, "declared_size_probes": nd, "session_edges_replayed": ts.Covered,
 			"interpreter_crosscheck_runs": nx,
 			"samples":                     samples,
 			"checker_cmd":                 mc.Cmd,
-		}, []string{"budgets 1..12 at the reader level, limits {4,5,9} end to end, limit 8 in the session graph", "BDAT size accounting is an edge family of the session graph (chunk sizes {0,6} against limit 8); finer chunkings are C05's"})
+		}, []string{"budgets 1..12 at the reader level, limits {4,5,9} end to end, limit 8 in the session graph", "BDAT size accounting is an edge family of the session graph (chunk sizes {0,6} against limit 8); finer chunkings are C05's",
+			"declared SIZE values beyond 32 bits: the server answers 501 (cannot represent) instead of 552; either is taken as the refusal the property asks for, provided the backend is not consulted"})
 	}
+}
+
+// declaredSizes probes MAIL ... SIZE=v for values around the limit and far
+// above it, through the widths an implementation may parse them with.  The
+// verdict is the session model's (MailVariants sizeok / sizeover): at most N is
+// accepted and handed to the backend as declared, more than N is refused
+// without consulting it.
+func declaredSizes(run *evid.Run) int {
+	n := 0
+	for _, lim := range []int64{1, 1000, 1 << 31} {
+		srv := drv.Start(drv.Cfg{MaxLine: 2000, MaxBytes: lim})
+		cn, err := srv.Dial()
+		if err != nil {
+			srv.Stop()
+			evid.Inconclusive("C06 declared sizes: %v", err)
+		}
+		cn.Output()
+		cn.Replies([]byte("EHLO c06.test\r\n"))
+		vals := []string{"0", "1", fmt.Sprint(lim - 1), fmt.Sprint(lim), fmt.Sprint(lim + 1), fmt.Sprint(2 * lim), "2147483647", "2147483648", "4294967295", "4294967296",
+			"9223372036854775807", "9223372036854775808", "18446744073709551615", "18446744073709551616", "99999999999999999999"}
+		for _, v := range vals {
+			mark := srv.BE.NumCalls()
+			rs, _, err := cn.Replies([]byte("MAIL FROM:<s@x.test> SIZE=" + v + "\r\n"))
+			if err != nil || len(rs) != 1 {
+				evid.Inconclusive("C06 declared sizes: %v %v", rs, err)
+			}
+			n++
+			var mail *rec.Call
+			calls := srv.BE.Since(mark)
+			for i := range calls {
+				if calls[i].Name == "Mail" {
+					mail = &calls[i]
+				}
+			}
+			bv, _ := new(big.Int).SetString(v, 10)
+			over := bv.Cmp(big.NewInt(lim)) > 0
+			wide := bv.Cmp(big.NewInt(4294967295)) > 0
+			rp := map[string]interface{}{"engine": "c06-declared-size", "limit": lim, "size": v}
+			switch {
+			case over && (mail != nil || rs[0].Code/100 == 2):
+				run.Report(evid.Div{Prop: "C06", Key: "declared-size:accepted-over", Msg: fmt.Sprintf("limit %d: MAIL SIZE=%s answered %d, backend consulted: %v", lim, v, rs[0].Code, mail != nil), Replay: rp})
+			case over && rs[0].Code != 552 && !(wide && rs[0].Code == 501):
+				run.Report(evid.Div{Prop: "C06", Key: "declared-size:code", Msg: fmt.Sprintf("limit %d: MAIL SIZE=%s answered %d, not 552", lim, v, rs[0].Code), Replay: rp})
+			case !over && (rs[0].Code != 250 || mail == nil || mail.MailOpts == nil || fmt.Sprint(mail.MailOpts.Size) != v):
+				got := "<no callback>"
+				if mail != nil && mail.MailOpts != nil {
+					got = fmt.Sprint(mail.MailOpts.Size)
+				}
+				run.Report(evid.Div{Prop: "C06", Key: "declared-size:refused-within", Msg: fmt.Sprintf("limit %d: MAIL SIZE=%s answered %d, backend saw size %s", lim, v, rs[0].Code, got), Replay: rp})
+			}
+			cn.Replies([]byte("RSET\r\n"))
+		}
+		cn.Close()
+		srv.Stop()
+	}
+	return n
 }
